@@ -525,7 +525,8 @@ def _flat(app_map):
 
 
 # ----------------------------------------------------------------------
-def h_load(ctx, shapes, bufs, sizes, tries, modes, nn_starts, pres):
+def h_load(ctx, shapes, bufs, sizes, tries, modes, nn_starts, pres,
+           rebuilt=False):
     from models.net import World
     from models.machine import ControllerPatch
     from harness.c12 import well_formed, pair_lt, beq
@@ -577,6 +578,28 @@ def h_load(ctx, shapes, bufs, sizes, tries, modes, nn_starts, pres):
         ft = _FakeTime(world)
         mcm.time = ft
         try:
+            if rebuilt:
+                # An earlier flood fill in this process sent a previous
+                # build of the same files (same paths, same sizes, other
+                # bytes) -- through the real flood_fill_aplx of a throw-away
+                # controller whose transport is a sink; then the binaries
+                # are rebuilt in place.
+                mc0 = mcm.MachineController("host")
+                mc0._scp_data_length = buf
+                mc0._send_scp = lambda *a, **k: None
+                mc0.read_struct_field = lambda *a, **k: SDRAM_SYS
+                try:
+                    for path, data, t in files:
+                        with open(path, "wb") as f:
+                            f.write(bytes(b ^ 0xff for b in data))
+                    mc0.flood_fill_aplx(
+                        {path: {c: set(ps) for c, ps in t.items()}
+                         for path, data, t in files}, app_id=1, wait=True)
+                finally:
+                    for path, data, t in files:
+                        with open(path, "wb") as f:
+                            f.write(data)
+                ctx.witness("rebuilt")
             mc = mcm.MachineController("host")
             machine.structs = mc.structs
             mc._nn_id = nn0
@@ -866,4 +889,9 @@ def units(tier, seed):
         pres=(True,) if q else (False, True), split=7,
         witnesses=W + ("waiting core under the same app id",
                        "waiting core under another app id"))
+    # the binaries were rebuilt in place (same path and size) after an
+    # earlier flood fill of this process had sent the previous build
+    unit("binaries rebuilt in place after an earlier fill", shapes=(
+        "1 core", "2 binaries 2 chips"), tries=(1,), rebuilt=True, split=5,
+        witnesses=("returned", "rebuilt"))
     return us
